@@ -9,6 +9,7 @@ import (
 	"regexp"
 	"strconv"
 	"strings"
+	"unicode"
 	"unicode/utf8"
 )
 
@@ -22,10 +23,12 @@ func c15Chance(r c15R, p float64) bool { return r.Float64() < p }
 
 var c15Atoms = []string{"a", "b", "c", "A", "B", "C", "ab", "Ab", "aB", "AB", "k", "K", "s", "S", "i", "I", "z", "Z", "-", "_", "1", "0", ".", "/", "<", ">", "=", "'",
 	"\u00e9", "\u00c9", "\u00df", "\u0130", "\u0131", "\u212a", "\u017f", "\ufffd", "\u03a3", "\u03c3", "\u01c5", "\u03a9", "\u03c9", "\u0416", "\u0436",
+	// letters whose upper and lower case forms differ in encoded length (2 <-> 3 bytes)
+	"\u023a", "\u2c65", "\u1e9e", "\u2126", "\u212b", "\u00e5",
 	"\xff", "\x80", "\xc3", "\xe9", "\xc9", "\xef\xbf", "\x00", "\x7f", "@", "[", "`", "{"}
 
 var c15SafeAtoms = []string{"a", "b", "c", "A", "B", "C", "ab", "Ab", "aB", "k", "K", "s", "S", "z", "Z", "-", "_", "1", "0", ".", "/", "<", ">", "=",
-	"\u00e9", "\u00c9", "\u00df", "\u212a", "\u0416", "\xff", "\x80", "\xc9", "@", "[", "{"}
+	"\u00e9", "\u00c9", "\u00df", "\u212a", "\u017f", "\u023a", "\u2c65", "\u0416", "\xff", "\x80", "\xc9", "@", "[", "{"}
 
 func c15FromAtoms(r c15R, atoms []string, minN, maxN int) string {
 	n := minN
@@ -61,10 +64,52 @@ func c15FlipCase(r c15R, s string) string {
 	return string(b)
 }
 
+// c15UniFlip rewrites letters of s into other members of their Unicode simple-folding orbit
+// (k/K -> U+212A KELVIN SIGN, s/S -> U+017F LONG S, é <-> É, U+023A <-> U+2C65 whose encodings
+// differ in length, ...) and, now and then, i/I into the dotless / dotted forms that are equal
+// under ToLower/ToUpper but NOT under simple folding. Bytes that are not valid UTF-8 stay. Every
+// comparison that folds case is probed with such inputs: an ASCII-only fold must not equate them,
+// RE2's (?i) must.
+func c15UniFlip(r c15R, s string) string {
+	var sb strings.Builder
+	for i := 0; i < len(s); {
+		c, n := utf8.DecodeRuneInString(s[i:])
+		if c == utf8.RuneError && n == 1 {
+			sb.WriteByte(s[i])
+			i++
+			continue
+		}
+		i += n
+		if r.IntN(3) != 0 {
+			switch {
+			case (c == 'i' || c == 'I') && r.IntN(4) == 0:
+				c = c15Pick(r, []rune{0x130, 0x131})
+			default:
+				var orbit []rune
+				for f := unicode.SimpleFold(c); f != c; f = unicode.SimpleFold(f) {
+					orbit = append(orbit, f)
+				}
+				if len(orbit) > 0 {
+					pick := orbit[r.IntN(len(orbit))]
+					for _, o := range orbit {
+						if o >= 0x80 && r.IntN(3) != 0 { // prefer the member outside ASCII
+							pick = o
+							break
+						}
+					}
+					c = pick
+				}
+			}
+		}
+		sb.WriteRune(c)
+	}
+	return sb.String()
+}
+
 // c15Around builds inputs related to a key string: equal, embedded at start / middle / end, near
 // misses (one byte dropped or changed), case-flipped, and unrelated.
 func c15Around(r c15R, key string, atoms []string) string {
-	switch r.IntN(12) {
+	switch r.IntN(13) {
 	case 0:
 		return key
 	case 1:
@@ -101,6 +146,11 @@ func c15Around(r c15R, key string, atoms []string) string {
 		return "x"
 	case 9:
 		return ""
+	case 10: // equal only under Unicode case folding
+		if r.IntN(2) == 0 {
+			return c15UniFlip(r, key)
+		}
+		return c15FromAtoms(r, atoms, 0, 2) + c15UniFlip(r, c15FlipCase(r, key)) + c15FromAtoms(r, atoms, 0, 2)
 	default:
 		return c15FromAtoms(r, atoms, 0, 6)
 	}
@@ -300,7 +350,10 @@ func c15GenPhrases(r c15R, form string, safe bool) []c15S {
 		case x < 9 && !safe:
 			p = c15RandBytes(r, 1+r.IntN(6), " |\n\r`#")
 		default:
-			p = c15FlipCase(r, string(out[r.IntN(len(out))]))
+			p = string(out[r.IntN(len(out))]) // listed twice: as written, or in another ASCII case
+			if r.IntN(3) != 0 {
+				p = c15FlipCase(r, p)
+			}
 		}
 		if form != "arg" && !safe && r.IntN(8) == 0 {
 			p = p + " " + c15FromAtoms(r, atoms, 1, 2) // phrases with an inner blank (one per line)
@@ -319,39 +372,73 @@ func c15GenPhrases(r c15R, form string, safe bool) []c15S {
 	return out
 }
 
-func c15PmInput(r c15R, phrases []c15S, atoms []string) string {
+// c15CommentToken is the text of the comment lines written into data files and data-set blocks; it
+// is offered as an input too (a comment is not a phrase).
+const c15CommentToken = "qq-c15-comment"
+
+// c15PmInput returns an input for a phrase list and the name of the way it was derived.
+func c15PmInput(r c15R, phrases []c15S, atoms []string) (string, string) {
 	ph := string(phrases[r.IntN(len(phrases))])
-	switch x := r.IntN(20); {
+	switch x := r.IntN(24); {
 	case x < 6:
-		return c15FromAtoms(r, atoms, 0, 8)
+		if r.IntN(12) == 0 {
+			return c15FromAtoms(r, atoms, 0, 2) + c15CommentToken, "noise"
+		}
+		return c15FromAtoms(r, atoms, 0, 8), "noise"
 	case x < 9: // phrase at the very start
-		return c15FlipCase(r, ph) + c15FromAtoms(r, atoms, 0, 4)
+		return c15FlipCase(r, ph) + c15FromAtoms(r, atoms, 0, 4), "phrase-at-start"
 	case x < 12: // phrase at the very end
-		return c15FromAtoms(r, atoms, 0, 4) + c15FlipCase(r, ph)
+		return c15FromAtoms(r, atoms, 0, 4) + c15FlipCase(r, ph), "phrase-at-end"
 	case x < 14:
-		return c15FromAtoms(r, atoms, 1, 4) + c15FlipCase(r, ph) + c15FromAtoms(r, atoms, 1, 4)
+		return c15FromAtoms(r, atoms, 1, 4) + c15FlipCase(r, ph) + c15FromAtoms(r, atoms, 1, 4), "phrase-inside"
 	case x < 15:
-		return c15FlipCase(r, ph)
+		return c15FlipCase(r, ph), "phrase"
 	case x < 17: // near miss
 		if len(ph) > 1 {
 			if r.IntN(2) == 0 {
-				return c15FromAtoms(r, atoms, 0, 2) + ph[:len(ph)-1]
+				return c15FromAtoms(r, atoms, 0, 2) + ph[:len(ph)-1], "near-miss"
 			}
-			return ph[1:] + c15FromAtoms(r, atoms, 0, 2)
+			return ph[1:] + c15FromAtoms(r, atoms, 0, 2), "near-miss"
 		}
-		return ""
-	case x < 18: // shorter than the shortest phrase
+		return "", "near-miss"
+	case x < 20: // the length boundary: shorter than / as long as / one byte longer than the shortest phrase
 		min := len(ph)
 		for _, p := range phrases {
 			if len(p) < min {
 				min = len(p)
 			}
 		}
-		if min <= 1 {
-			return ""
+		var shortest []string
+		for _, p := range phrases {
+			if len(p) == min {
+				shortest = append(shortest, string(p))
+			}
 		}
-		return c15RandBytes(r, r.IntN(min), "")
-	case x < 19: // many occurrences (capture limit)
+		sp := c15Pick(r, shortest)
+		switch r.IntN(9) {
+		case 0, 1:
+			return c15FlipCase(r, sp), "shortest-phrase"
+		case 2:
+			return c15FlipCase(r, sp) + c15RandBytes(r, 1, ""), "shortest-phrase-plus-one"
+		case 3:
+			return c15RandBytes(r, 1, "") + c15FlipCase(r, sp), "shortest-phrase-plus-one"
+		case 4:
+			return sp[:len(sp)-1], "shortest-phrase-minus-one"
+		case 5:
+			return sp[1:], "shortest-phrase-minus-one"
+		case 6: // as long as the shortest phrase, one bit off
+			b := []byte(sp)
+			b[r.IntN(len(b))] ^= byte(1 << uint(r.IntN(8)))
+			return string(b), "shortest-phrase-one-bit-off"
+		case 7:
+			return c15UniFlip(r, sp), "shortest-phrase-unicode-folded"
+		default:
+			if min <= 1 {
+				return "", "shorter-than-shortest"
+			}
+			return c15RandBytes(r, r.IntN(min), ""), "shorter-than-shortest"
+		}
+	case x < 21: // many occurrences (capture limit)
 		var sb strings.Builder
 		k := 8 + r.IntN(8)
 		for i := 0; i < k; i++ {
@@ -360,10 +447,86 @@ func c15PmInput(r c15R, phrases []c15S, atoms []string) string {
 				sb.WriteString(atoms[r.IntN(len(atoms))])
 			}
 		}
-		return sb.String()
+		return sb.String(), "many-occurrences"
+	case x < 23: // equal to a phrase only under Unicode case folding (the statement fixes the folding to ASCII)
+		return c15FromAtoms(r, atoms, 0, 2) + c15UniFlip(r, c15FlipCase(r, ph)) + c15FromAtoms(r, atoms, 0, 2), "unicode-folded-phrase"
 	default:
-		return c15RandBytes(r, r.IntN(10), "")
+		return c15RandBytes(r, r.IntN(10), ""), "random-bytes"
 	}
+}
+
+// c15RenderLines writes the entries of a data file (or of a SecDataset block) the way such files
+// are written in practice: entries indented or followed by blanks, empty and blank-only lines,
+// comment lines, an entry listed twice, LF or CRLF line ends, the last line with or without a
+// line end or followed by empty lines. The documented content is the list of entries whatever the
+// style; dup rewrites an entry for its second listing; crlfOK=false keeps the text free of CR.
+func c15RenderLines(r c15R, entries []string, dup func(string) string, crlfOK bool) (string, string) {
+	padMode := c15Pick(r, []string{"none", "none", "some", "all"})
+	eolMode := c15Pick(r, []string{"lf", "lf", "lf", "lf", "crlf", "mixed"})
+	if !crlfOK {
+		eolMode = "lf"
+	}
+	final := c15Pick(r, []string{"one", "one", "one", "none", "none", "many"})
+	eol := func() string {
+		switch eolMode {
+		case "crlf":
+			return "\r\n"
+		case "mixed":
+			if r.IntN(2) == 0 {
+				return "\r\n"
+			}
+		}
+		return "\n"
+	}
+	lead := []string{"", " ", "  ", "\t", " \t", "    "}
+	trail := []string{"", " ", "   ", "\t", " \t ", "\t\t"}
+	pad := func(e string) string {
+		switch padMode {
+		case "none":
+			return e
+		case "some":
+			if r.IntN(2) == 0 {
+				return e
+			}
+		}
+		for {
+			l, t := c15Pick(r, lead), c15Pick(r, trail)
+			if l != "" || t != "" {
+				return l + e + t
+			}
+		}
+	}
+	var sb strings.Builder
+	last := ""
+	for i, e := range entries {
+		if r.IntN(10) == 0 {
+			sb.WriteString("#" + c15Pick(r, []string{"", " "}) + c15CommentToken)
+			sb.WriteString(eol())
+		}
+		if r.IntN(12) == 0 {
+			sb.WriteString(eol())
+		}
+		if padMode != "none" && r.IntN(12) == 0 {
+			sb.WriteString(c15Pick(r, []string{" ", "\t", "   "})) // a blank-only line
+			sb.WriteString(eol())
+		}
+		sb.WriteString(pad(e))
+		last = eol()
+		sb.WriteString(last)
+		if r.IntN(10) == 0 {
+			sb.WriteString(pad(dup(entries[r.IntN(i+1)])))
+			last = eol()
+			sb.WriteString(last)
+		}
+	}
+	text := sb.String()
+	switch final {
+	case "none":
+		text = strings.TrimSuffix(text, last)
+	case "many":
+		text += eol() + eol()
+	}
+	return text, "pad=" + padMode + ",eol=" + eolMode + ",final=" + final
 }
 
 func c15GenPm(r c15R, op string, safe bool, serial int) *c15Spec {
@@ -378,27 +541,26 @@ func c15GenPm(r c15R, op string, safe bool, serial int) *c15Spec {
 		s.Arg = c15S(strings.Join(parts, " "))
 	case "pmFromFile", "pmf":
 		s.Phrases = c15GenPhrases(r, "file", safe)
-		var sb strings.Builder
-		for _, p := range s.Phrases {
-			if r.IntN(10) == 0 {
-				sb.WriteString("# a comment line\n")
-			}
-			if r.IntN(12) == 0 {
-				sb.WriteString("\n")
-			}
-			sb.WriteString(string(p))
-			sb.WriteString("\n")
+		lines := make([]string, len(s.Phrases))
+		for i, p := range s.Phrases {
+			lines[i] = string(p)
 		}
-		f := sb.String()
-		if r.IntN(4) == 0 {
-			f = strings.TrimSuffix(f, "\n") // last line without a newline
-		}
+		f, style := c15RenderLines(r, lines, func(e string) string { return c15FlipCase(r, e) }, true)
 		fc := c15S(f)
-		s.File = &fc
+		s.File, s.FileStyle = &fc, style
 		s.Arg = c15S(fmt.Sprintf("c15_pm_%d.data", serial))
 	case "pmFromDataset":
 		s.Phrases = c15GenPhrases(r, "dataset", safe)
 		s.Dataset = append([]c15S(nil), s.Phrases...)
+		if safe {
+			lines := make([]string, len(s.Phrases))
+			for i, p := range s.Phrases {
+				lines[i] = string(p)
+			}
+			t, _ := c15RenderLines(r, lines, func(e string) string { return c15FlipCase(r, e) }, true)
+			tc := c15S(t)
+			s.DatasetText = &tc
+		}
 		s.Arg = c15S(fmt.Sprintf("c15ds%d", serial))
 	}
 	return s
@@ -579,23 +741,17 @@ func c15GenIP(r c15R, op string, serial int) *c15Spec {
 		}
 		s.Arg = c15S(strings.Join(s.Entries, sep))
 	case "ipMatchFromFile", "ipMatchF":
-		var sb strings.Builder
-		for _, e := range s.Entries {
-			if r.IntN(8) == 0 {
-				sb.WriteString("# comment\n")
-			}
-			if r.IntN(10) == 0 {
-				sb.WriteString("\n")
-			}
-			sb.WriteString(e + "\n")
-		}
-		fc := c15S(sb.String())
-		s.File = &fc
+		f, style := c15RenderLines(r, s.Entries, func(e string) string { return e }, true)
+		fc := c15S(f)
+		s.File, s.FileStyle = &fc, style
 		s.Arg = c15S(fmt.Sprintf("c15_ip_%d.data", serial))
 	case "ipMatchFromDataset":
 		for _, e := range s.Entries {
 			s.Dataset = append(s.Dataset, c15S(e))
 		}
+		t, _ := c15RenderLines(r, s.Entries, func(e string) string { return e }, true)
+		tc := c15S(t)
+		s.DatasetText = &tc
 		s.Arg = c15S(fmt.Sprintf("c15ipds%d", serial))
 	}
 	return s
@@ -697,7 +853,7 @@ type c15Rx struct {
 	sample func(r c15R) string
 }
 
-var c15RxLits = []string{"a", "b", "A", "B", "0", "1", " ", "-", "_", "\n", "é", ".", "x"}
+var c15RxLits = []string{"a", "b", "A", "B", "0", "1", " ", "-", "_", "\n", "é", ".", "x", "k", "K", "s", "S", "\u017f", "\u212a"}
 
 func c15RxLeaf(r c15R) c15Rx {
 	switch r.IntN(16) {
@@ -811,6 +967,9 @@ func c15RxNode(r c15R, depth int) c15Rx {
 		fl := c15Pick(r, []string{"(?i:", "(?-s:", "(?-m:", "(?U:", "(?s:"})
 		return c15Rx{fl + a.pat + ")", func(r c15R) string {
 			if fl == "(?i:" {
+				if r.IntN(3) == 0 {
+					return c15UniFlip(r, a.sample(r))
+				}
 				return c15FlipCase(r, a.sample(r))
 			}
 			return a.sample(r)
@@ -822,6 +981,9 @@ func c15RxNode(r c15R, depth int) c15Rx {
 
 // c15GenRx produces a pattern Go's regexp accepts, valid UTF-8, without byte escapes.
 func c15GenRx(r c15R, safe bool) (*c15Spec, func(r c15R) string) {
+	if r.IntN(6) == 0 {
+		return c15GenRxLiteral(r, safe)
+	}
 	for {
 		var node c15Rx
 		if r.IntN(12) == 0 {
@@ -870,13 +1032,73 @@ func c15GenRx(r c15R, safe bool) (*c15Spec, func(r c15R) string) {
 		if c15Regexp(pat) == nil {
 			continue
 		}
-		return &c15Spec{Op: "rx", Arg: c15S(pat), Pattern: pat, Capture: r.IntN(2) == 0}, node.sample
+		return &c15Spec{Op: "rx", Arg: c15S(pat), Pattern: pat, Capture: r.IntN(2) == 0, Prefilter: r.IntN(2) == 0}, node.sample
+	}
+}
+
+var c15RxLitLetters = []string{"a", "b", "d", "e", "k", "K", "s", "S", "k", "s", "o", "p", "t", "i", "I", "1", "-", "/", "é", "É", "ß", "\u017f", "\u212a", "ω", "\u2126", "\u2c65", "ж"}
+
+// c15GenRxLiteral: patterns that are one literal, anchored and/or case-insensitive, written in the
+// ways rule sets write them ((?i)^desk$, ^(?i:ok)$, (?i)^(post)$, \Aget\z, (?i)sleep ...). Such
+// patterns are the ones a matcher may decide without its regexp engine (comparison, length check,
+// required substring), so RE2's reading of them - Unicode simple folding under (?i): k/K/U+212A,
+// s/S/U+017F; "$" before a final newline under (?m) - is probed on its own.
+func c15GenRxLiteral(r c15R, safe bool) (*c15Spec, func(r c15R) string) {
+	for {
+		lit := c15FromAtoms(r, c15RxLitLetters, 1, 5)
+		if r.IntN(3) == 0 {
+			lit = c15Pick(r, []string{"desk", "ok", "post", "sleep", "KS", "sk", "Ask", "k", "s", "risk-1", "kiss"})
+		}
+		q := regexp.QuoteMeta(lit)
+		var pat string
+		switch r.IntN(16) {
+		case 0:
+			pat = "^" + q + "$"
+		case 1, 2, 3:
+			pat = "(?i)^" + q + "$"
+		case 4, 5:
+			pat = "^(?i:" + q + ")$"
+		case 6:
+			pat = "(?i)^(" + q + ")$"
+		case 7:
+			pat = "(^" + q + "$)"
+		case 8:
+			pat = "(?i)(^" + q + "$)"
+		case 9:
+			pat = `\A` + q + `\z`
+		case 10:
+			pat = `(?i)\A` + q + `\z`
+		case 11:
+			pat = "(?i)" + q
+		case 12:
+			pat = "(?i)^" + q
+		case 13:
+			pat = "(?i)" + q + "$"
+		case 14:
+			pat = "^(?i)" + q + "$"
+		default:
+			pat = "(?i:^" + q + "$)"
+		}
+		if safe && (!c15TextSafe(pat) || strings.TrimSpace(pat) != pat) {
+			continue
+		}
+		if c15Regexp(pat) == nil {
+			continue
+		}
+		l := c15S(lit)
+		return &c15Spec{Op: "rx", Arg: c15S(pat), Pattern: pat, Literal: &l, Capture: r.IntN(2) == 0, Prefilter: r.IntN(4) != 0}, func(c15R) string { return lit }
 	}
 }
 
 func c15RxInput(r c15R, sample func(r c15R) string) string {
 	noise := []string{"a", "b", "A", "B", "0", "1", " ", "-", "\n", "é", "x", "\xff", "_"}
-	switch x := r.IntN(10); {
+	switch x := r.IntN(13); {
+	case x == 10: // equal to a sample under Unicode simple folding
+		return c15UniFlip(r, sample(r))
+	case x == 11:
+		return c15FromAtoms(r, noise, 0, 1) + c15UniFlip(r, c15FlipCase(r, sample(r))) + c15FromAtoms(r, noise, 0, 1)
+	case x == 12: // a final newline: "$" matches before it under the default (?m)
+		return sample(r) + "\n"
 	case x < 3:
 		return sample(r)
 	case x < 6:
